@@ -137,3 +137,16 @@ package platform
 //@   ensures #driver-type-is-generic-or-network driverTypeWF(def, 0) && (ykind(vars) == 6 ==> forall k int :: 0 <= k && k < ylen(vars) ==> driverTypeWF(def, yitem(vars, k)))
 //@   ensures #hook-steps-are-ones-the-hook-executes hooksWF(def, 0) && (ykind(vars) == 6 ==> forall k int :: 0 <= k && k < ylen(vars) ==> hooksWF(def, yitem(vars, k)))
 //@   ensures #privilege-levels-form-one-tree-and-the-default-level-exists networkWF(def, 0) && (ykind(vars) == 6 ==> forall k int :: 0 <= k && k < ylen(vars) ==> networkWF(def, yitem(vars, k)))
+
+// ---- C17: every load of a name yields objects of its own (what a name loads does not depend on earlier loads) --------------
+//@ func util.ResolveAtFileOrURL
+//@   noverify
+//@   modifies alloc()
+//@ func loadPlatformDefinitionFromBytes [C17]
+//@   modifies alloc()
+//@   ensures #every-load-yields-fresh-objects result.1 == nil ==> fresh(result.0) && isnew(result.0.Default)
+//@   ensures #nil-on-error result.1 != nil ==> result.0 == nil
+//@ func loadPlatformDefinition [C17]
+//@   modifies alloc()
+//@   ensures #every-load-yields-fresh-objects result.1 == nil ==> isnew(result.0) && isnew(result.0.Default)
+//@   ensures #nil-on-error result.1 != nil ==> result.0 == nil
